@@ -13,71 +13,72 @@ import (
 	"strconv"
 	"strings"
 	"sync"
+	"sync/atomic"
 	"time"
 
 	"golang.org/x/tools/go/ssa"
 )
 
 type JobConfig struct {
-	Entry      string         `json:"entry"`
-	Params     map[string]int `json:"params,omitempty"`
-	Unwind     int            `json:"unwind,omitempty"`
-	MaxSteps   int            `json:"max_steps,omitempty"`
-	MaxDepth   int            `json:"max_depth,omitempty"`
-	MaxPreempt int            `json:"max_preempt,omitempty"`
-	MaxDelay   int            `json:"max_delay,omitempty"`
-	DelayBounded bool         `json:"delay_bounded,omitempty"`
-	Merge      bool           `json:"merge,omitempty"`
-	MapOrder   string         `json:"map_order,omitempty"`
-	MapReverse bool           `json:"map_reverse,omitempty"`
-	Solver     string         `json:"solver,omitempty"`
-	TimeoutMs  int            `json:"timeout_ms,omitempty"`
-	MaxPaths   int            `json:"max_paths,omitempty"`
-	Canary     bool           `json:"canary,omitempty"`
-	ExpectViolation bool      `json:"expect_violation,omitempty"` // canary twin
-	Trace      bool           `json:"-"`
-	NoReplay   bool           `json:"-"`
-	Concrete   *NativeWitness `json:"-"`
-	Name       string         `json:"name,omitempty"`
+	Entry           string         `json:"entry"`
+	Params          map[string]int `json:"params,omitempty"`
+	Unwind          int            `json:"unwind,omitempty"`
+	MaxSteps        int            `json:"max_steps,omitempty"`
+	MaxDepth        int            `json:"max_depth,omitempty"`
+	MaxPreempt      int            `json:"max_preempt,omitempty"`
+	MaxDelay        int            `json:"max_delay,omitempty"`
+	DelayBounded    bool           `json:"delay_bounded,omitempty"`
+	Merge           bool           `json:"merge,omitempty"`
+	MapOrder        string         `json:"map_order,omitempty"`
+	MapReverse      bool           `json:"map_reverse,omitempty"`
+	Solver          string         `json:"solver,omitempty"`
+	TimeoutMs       int            `json:"timeout_ms,omitempty"`
+	MaxPaths        int            `json:"max_paths,omitempty"`
+	Canary          bool           `json:"canary,omitempty"`
+	ExpectViolation bool           `json:"expect_violation,omitempty"` // canary twin
+	Trace           bool           `json:"-"`
+	NoReplay        bool           `json:"-"`
+	Concrete        *NativeWitness `json:"-"`
+	Name            string         `json:"name,omitempty"`
 }
 
 type JobSpec struct {
-	Entry   string            `json:"entry"`
-	Sweep   map[string]string `json:"sweep,omitempty"` // param -> "a..b" or "a,b,c"
-	Params  map[string]int    `json:"params,omitempty"`
-	Unwind  int               `json:"unwind,omitempty"`
-	MaxSteps int              `json:"max_steps,omitempty"`
-	MaxPreempt int            `json:"max_preempt,omitempty"`
-	MaxDelay   int            `json:"max_delay,omitempty"` // >0: delay-bounded scheduling with this budget
-	NoMerge bool              `json:"no_merge,omitempty"`
-	MapOrder string           `json:"map_order,omitempty"`
-	Solver  string            `json:"solver,omitempty"`
-	TimeoutMs int             `json:"timeout_ms,omitempty"`
-	MaxPaths int              `json:"max_paths,omitempty"`
-	Canary  bool              `json:"canary,omitempty"` // also run the falsified twin (once, on the first param tuple)
-	Tiers   []string          `json:"tiers,omitempty"`  // restrict to tiers
-	Bounds  string            `json:"bounds,omitempty"`
-	MustReach []string        `json:"must_reach,omitempty"` // reachability witnesses: each label must be reached by some instance of this job
-	NoReplay bool             `json:"no_replay,omitempty"` // schedule-dependent: counterexamples are not replayed natively
+	Entry      string            `json:"entry"`
+	Sweep      map[string]string `json:"sweep,omitempty"` // param -> "a..b" or "a,b,c"
+	Params     map[string]int    `json:"params,omitempty"`
+	Unwind     int               `json:"unwind,omitempty"`
+	MaxSteps   int               `json:"max_steps,omitempty"`
+	MaxPreempt int               `json:"max_preempt,omitempty"`
+	MaxDelay   int               `json:"max_delay,omitempty"` // >0: delay-bounded scheduling with this budget
+	NoMerge    bool              `json:"no_merge,omitempty"`
+	MapOrder   string            `json:"map_order,omitempty"`
+	Solver     string            `json:"solver,omitempty"`
+	TimeoutMs  int               `json:"timeout_ms,omitempty"`
+	MaxPaths   int               `json:"max_paths,omitempty"`
+	Canary     bool              `json:"canary,omitempty"` // also run the falsified twin (once, on the first param tuple)
+	Tiers      []string          `json:"tiers,omitempty"`  // restrict to tiers
+	Bounds     string            `json:"bounds,omitempty"`
+	MustReach  []string          `json:"must_reach,omitempty"` // reachability witnesses: each label must be reached by some instance of this job
+	NoReplay   bool              `json:"no_replay,omitempty"`  // schedule-dependent: counterexamples are not replayed natively
 }
 
 type PkgSpec struct {
-	Pkg     string    `json:"pkg"`
-	Harness []string  `json:"harness"`
-	API     []string  `json:"api,omitempty"` // extra harness API templates (e.g. "slog")
-	Quick   []JobSpec `json:"quick"`
+	Pkg      string    `json:"pkg"`
+	Harness  []string  `json:"harness"`
+	API      []string  `json:"api,omitempty"` // extra harness API templates (e.g. "slog")
+	Quick    []JobSpec `json:"quick"`
 	Thorough []JobSpec `json:"thorough"`
 }
 
 type CheckSpec struct {
-	Property string    `json:"property"`
-	Level    string    `json:"level"`
-	Explain  string    `json:"explanation"`
-	Assumptions []string `json:"assumptions"`
-	Outside  []string  `json:"outside"`
-	Groups   []PkgSpec `json:"groups"`
-	Replay   string    `json:"replay,omitempty"`
-	Labels   []string  `json:"labels,omitempty"` // only violations whose label has one of these prefixes belong to this property
+	Property    string    `json:"property"`
+	Level       string    `json:"level"`
+	Explain     string    `json:"explanation"`
+	Assumptions []string  `json:"assumptions"`
+	Outside     []string  `json:"outside"`
+	Groups      []PkgSpec `json:"groups"`
+	Replay      string    `json:"replay,omitempty"`
+	Labels      []string  `json:"labels,omitempty"` // only violations whose label has one of these prefixes belong to this property
 }
 
 type jobState struct {
@@ -98,24 +99,46 @@ type jobState struct {
 	start    time.Time
 	wall     time.Duration
 	overflow bool
+	// early stop: once stopAfter violations whose label satisfies countLabel have been found,
+	// the rest of this job's path tree is not explored (the verdict is already "violated")
+	stopAfter  int
+	countLabel func(string) bool
+	counted    int
+	stopped    bool
+	started    int        // guarded by the work queue's lock
+	sg         *stopGroup // jobs of one harness entry share the verdict: one stops, all stop
 }
+
+type stopGroup struct{ stopped atomic.Bool }
 
 type workItem struct {
 	job    *jobState
 	prefix []Decision
 }
 
+// workQueue: one DFS stack per job; a free worker takes the next path of the job that has
+// had the fewest paths started so far, so small instances finish (and report) first and a
+// huge instance cannot starve the others.
 type workQueue struct {
-	mu    sync.Mutex
-	cond  *sync.Cond
-	items []workItem
-	busy  int
-	done  bool
+	mu     sync.Mutex
+	cond   *sync.Cond
+	jobs   []*jobState
+	stacks map[*jobState][]workItem
+	nitems int
+	busy   int
+	done   bool
 }
 
 func (q *workQueue) push(it workItem) {
 	q.mu.Lock()
-	q.items = append(q.items, it)
+	if q.stacks == nil {
+		q.stacks = map[*jobState][]workItem{}
+	}
+	if _, ok := q.stacks[it.job]; !ok {
+		q.jobs = append(q.jobs, it.job)
+	}
+	q.stacks[it.job] = append(q.stacks[it.job], it)
+	q.nitems++
 	q.mu.Unlock()
 	q.cond.Signal()
 }
@@ -123,7 +146,7 @@ func (q *workQueue) push(it workItem) {
 func (q *workQueue) pop() (workItem, bool) {
 	q.mu.Lock()
 	defer q.mu.Unlock()
-	for len(q.items) == 0 {
+	for q.nitems == 0 {
 		if q.busy == 0 {
 			q.done = true
 			q.cond.Broadcast()
@@ -134,8 +157,17 @@ func (q *workQueue) pop() (workItem, bool) {
 			return workItem{}, false
 		}
 	}
-	it := q.items[len(q.items)-1]
-	q.items = q.items[:len(q.items)-1]
+	var best *jobState
+	for _, j := range q.jobs {
+		if len(q.stacks[j]) > 0 && (best == nil || j.started < best.started) {
+			best = j
+		}
+	}
+	st := q.stacks[best]
+	it := st[len(st)-1]
+	q.stacks[best] = st[:len(st)-1]
+	q.nitems--
+	best.started++
 	q.busy++
 	return it, true
 }
@@ -149,7 +181,8 @@ func (q *workQueue) finish() {
 
 type solverStats struct {
 	Queries, Sat, Unsat, Unknown, Errors int
-	TimeS                                 float64
+	Rescued                              int // primary said unknown, the second solver decided
+	TimeS                                float64
 }
 
 func runJobs(jobs []*jobState, workers int, verbose bool) map[string]*solverStats {
@@ -158,15 +191,31 @@ func runJobs(jobs []*jobState, workers int, verbose bool) map[string]*solverStat
 	for _, j := range jobs {
 		j.pending = 1
 		j.start = time.Now()
-		q.items = append(q.items, workItem{job: j})
-	}
-	// reverse so first jobs run first
-	for i, k := 0, len(q.items)-1; i < k; i, k = i+1, k-1 {
-		q.items[i], q.items[k] = q.items[k], q.items[i]
+		q.push(workItem{job: j})
 	}
 	stats := map[string]*solverStats{}
 	var smu sync.Mutex
 	var wg sync.WaitGroup
+	if verbose {
+		stopProg := make(chan struct{})
+		defer close(stopProg)
+		go func() {
+			for {
+				select {
+				case <-stopProg:
+					return
+				case <-time.After(30 * time.Second):
+				}
+				for _, j := range jobs {
+					j.mu.Lock()
+					if j.pending > 0 {
+						fmt.Fprintf(os.Stderr, "  [progress] %s%v canary=%v paths=%d pending=%d viol=%d stopped=%v\n", j.entry, j.cfg.Params, j.cfg.Canary, j.paths, j.pending, len(j.viol), j.stopped)
+					}
+					j.mu.Unlock()
+				}
+			}
+		}()
+	}
 	for wi := 0; wi < workers; wi++ {
 		wg.Add(1)
 		go func() {
@@ -186,6 +235,18 @@ func runJobs(jobs []*jobState, workers int, verbose bool) map[string]*solverStat
 					st.Unknown += s.Unknown
 					st.Errors += s.Errors
 					st.TimeS += s.Time.Seconds()
+					st.Rescued += s.Rescued
+					if s.fb != nil {
+						fk := "second:" + s.fb.kind
+						fs := stats[fk]
+						if fs == nil {
+							fs = &solverStats{}
+							stats[fk] = fs
+						}
+						fs.Queries += s.fb.Queries
+						fs.TimeS += s.fb.Time.Seconds()
+						fs.Errors += s.fb.Errors
+					}
 					s.Close()
 				}
 				smu.Unlock()
@@ -196,6 +257,20 @@ func runJobs(jobs []*jobState, workers int, verbose bool) map[string]*solverStat
 					return
 				}
 				j := it.job
+				j.mu.Lock()
+				if j.sg != nil && j.sg.stopped.Load() {
+					j.stopped = true
+				}
+				if j.stopped {
+					j.pending--
+					if j.pending == 0 {
+						j.wall = time.Since(j.start)
+					}
+					j.mu.Unlock()
+					q.finish()
+					continue
+				}
+				j.mu.Unlock()
 				key := fmt.Sprintf("%s/%d", j.cfg.Solver, j.cfg.TimeoutMs)
 				s := solvers[key]
 				if s == nil || s.dead {
@@ -229,6 +304,20 @@ func runJobs(jobs []*jobState, workers int, verbose bool) map[string]*solverStat
 					j.samples = append(j.samples, fmt.Sprintf("path %d: outcome=%s decisions=%d asserts=%d steps=%d %s", j.paths, res.Outcome, len(in.trace), res.Asserts, res.Steps, res.Detail))
 				}
 				alts := res.Alts
+				if j.stopAfter > 0 {
+					for _, v := range res.Violations {
+						if j.countLabel == nil || j.countLabel(v.Label) {
+							j.counted++
+						}
+					}
+					if j.counted >= j.stopAfter {
+						j.stopped = true
+						alts = nil
+						if j.sg != nil {
+							j.sg.stopped.Store(true)
+						}
+					}
+				}
 				if j.cfg.MaxPaths > 0 && j.paths+j.pending-1+len(alts) > j.cfg.MaxPaths {
 					if len(alts) > 0 {
 						j.overflow = true
